@@ -1438,6 +1438,17 @@ _CATALOGUE = [
     </chunked>
   </struct>
 </protocol>""")]),
+    ("nested chunked section closed inside an open one, string right after it", True, [("", """<protocol>
+  <struct name="Nest2">
+    <field name="v" type="char"/>
+    <chunked><field name="a" type="string" length="2"/><chunked><field name="b" type="char"/></chunked><field name="c" type="string"/></chunked>
+  </struct>
+  <struct name="Nest3">
+    <chunked><field name="k" type="char"/>
+      <switch field="k"><case value="1"><chunked><field name="p" type="char"/></chunked><field name="q" type="string" length="3"/></case></switch>
+      <field name="c" type="string"/></chunked>
+  </struct>
+</protocol>""")]),
     ("delimited arrays without trailing delimiter followed by a break; counted delimited arrays", True, [("pub", """<protocol>
   <struct name="Line"><field name="id" type="char"/><field name="text" type="string"/></struct>
   <struct name="Party">
